@@ -180,3 +180,26 @@ pub fn boundary_f64(rng: &mut Rng, lo: f64, hi: f64) -> f64 {
         }
     }
 }
+
+/// HTS wildcard match (`*` any run, `?` one byte), written here independently of the library's matcher
+pub fn glob(p: &[u8], s: &[u8]) -> bool {
+    let (mut i, mut j, mut star, mut mark) = (0usize, 0usize, None::<usize>, 0usize);
+    while j < s.len() {
+        if i < p.len() && (p[i] == b'?' || (p[i] != b'*' && p[i] == s[j])) { i += 1; j += 1; }
+        else if i < p.len() && p[i] == b'*' { star = Some(i); mark = j; i += 1; }
+        else if let Some(st) = star { i = st + 1; mark += 1; j = mark; }
+        else { return false; }
+    }
+    while i < p.len() && p[i] == b'*' { i += 1; }
+    i == p.len()
+}
+
+/// the `GV_OFF_CONTEXT:` patterns read straight from the voice file's [GLOBAL] section
+pub fn gv_off_patterns_of_file(path: &str) -> Vec<String> {
+    let bytes = std::fs::read(path).expect("voice file");
+    let key = b"GV_OFF_CONTEXT:";
+    let pos = bytes.windows(key.len()).position(|w| w == key).expect("GV_OFF_CONTEXT");
+    let rest = &bytes[pos + key.len()..];
+    let end = rest.iter().position(|b| *b == b'\n').unwrap_or(rest.len());
+    String::from_utf8_lossy(&rest[..end]).split(',').map(|t| t.trim().trim_matches('"').to_string()).filter(|t| !t.is_empty()).collect()
+}
